@@ -272,3 +272,127 @@ def extract(ctx):
     g.raw('/-! ### cflib/utils/encoding.py: fp16_to_float (translated) -/\n')
     g.raw(FuncTranslator(enc, X.find(enc, 'fp16_to_float'), 'fp16_to_float').render())
     return {'C13.lean': g.render()}
+
+
+# ======================================================================================================
+# Tie B
+# ======================================================================================================
+def _quiet():
+    import logging
+    import warnings
+    logging.disable(logging.CRITICAL)
+    warnings.filterwarnings('ignore')
+
+
+def canon_num(x):
+    """canonical text of a Python number returned by a codec: `int:<v>` or `f32:<binary32 bits>` (`f32:nan` for NaNs:
+    CPython does not preserve NaN payloads across the binary32 -> binary64 widening, only NaN-ness is observable)"""
+    import math
+    import struct
+    if isinstance(x, bool) or not isinstance(x, (int, float)):
+        return 'other:' + type(x).__name__
+    if isinstance(x, int):
+        return 'int:%d' % x
+    if math.isnan(x):
+        return 'f32:nan'
+    try:
+        b = struct.pack('<f', x)
+    except OverflowError:
+        return 'f64:%s' % struct.pack('<d', x).hex()
+    if struct.unpack('<f', b)[0] != x:
+        return 'f64:%s' % struct.pack('<d', x).hex()      # not a binary32 value
+    return 'f32:%d' % struct.unpack('<I', b)[0]
+
+
+def canon_model_num(reply):
+    """the model prints the exact binary32 pattern; fold NaN patterns like canon_num does"""
+    if reply.startswith('ok f32:'):
+        b = int(reply[7:])
+        if (b >> 23) & 0xFF == 0xFF and b & 0x7FFFFF:
+            return 'ok f32:nan'
+    return reply
+
+
+def real_fp16(v):
+    from cflib.utils.encoding import fp16_to_float
+    from harness.lib.common import exc_enum
+    try:
+        return 'ok ' + canon_num(fp16_to_float(v))
+    except Exception as e:
+        return 'err ' + exc_enum(e)
+
+
+def gen_cases(ctx):
+    rng = ctx.rng
+    cases = []
+    # half floats: all 65536 patterns (unsigned reading) + the signed reading of the upper half + wider ints
+    for h in range(65536):
+        cls = 'zero' if h & 0x7FFF == 0 else 'sub' if (h >> 10) & 31 == 0 else 'inf' if h & 0x7FFF == 0x7C00 else \
+            'nan' if (h >> 10) & 31 == 31 else 'normal'
+        cases.append(('fp16', 'fp16 %d' % h, lambda v=h: real_fp16(v), {'op': 'fp16', 'h': h}, ('fp16', h), 'fp16:' + cls))
+    signed = range(-32768, 0) if ctx.tier == 'thorough' else sorted(set(list(range(-32768, 0, 7)) + [-1, -2, -1024, -1023, -31744, -31745, -32767]))
+    for v in signed:
+        cases.append(('fp16', 'fp16 %d' % v, lambda v=v: real_fp16(v), {'op': 'fp16', 'v': v}, ('fp16s', v), 'fp16:signed'))
+    for _ in range(200):
+        v = rng.choice([1, -1]) * rng.getrandbits(rng.choice([17, 20, 33, 70]))
+        cases.append(('fp16', 'fp16 %d' % v, lambda v=v: real_fp16(v), {'op': 'fp16', 'v': v}, ('fp16w', v), 'fp16:wide'))
+    return cases
+
+
+def correspond(ctx):
+    _quiet()
+    cases = gen_cases(ctx)
+    replies = ctx.lean(DRIVER, [c[1] for c in cases])
+    for (kind, line, thunk, desc, key, cnt), model in zip(cases, replies):
+        real = thunk()
+        model = canon_model_num(model)
+        ctx.count(cnt)
+        ctx.count('result:' + ' '.join(real.split(' ')[:2]).split(':')[0])
+        ctx.case(desc, key)
+        if real != model:
+            ctx.disagree(kind, line[:300], model[:300], real[:300])
+
+
+# ======================================================================================================
+# failing-input search: the property itself on the real code
+# ======================================================================================================
+def spec_half(h):
+    """IEEE-754 binary16 value of pattern h as (kind, sign, Fraction) - independent Python twin of Spec.halfValue"""
+    from fractions import Fraction
+    s, e, m = h >> 15, (h >> 10) & 31, h & 1023
+    if e == 31:
+        return ('inf', s, None) if m == 0 else ('nan', None, None)
+    if e == 0:
+        return ('fin', s, Fraction(m, 1 << 24))
+    return ('fin', s, Fraction(1024 + m, 1024) * Fraction(2) ** (e - 15))
+
+
+def value_of(x):
+    import math
+    from fractions import Fraction
+    if isinstance(x, bool) or not isinstance(x, float):
+        return ('not-a-float', type(x).__name__, x)
+    if math.isnan(x):
+        return ('nan', None, None)
+    if math.isinf(x):
+        return ('inf', 1 if x < 0 else 0, None)
+    return ('fin', 1 if math.copysign(1.0, x) < 0 else 0, abs(Fraction(x)))
+
+
+def search(ctx):
+    _quiet()
+    import numpy as np
+    from cflib.utils.encoding import fp16_to_float
+    # (1) every half pattern decodes to a float with the binary16 value (spec twin AND numpy.float16)
+    ref = np.arange(65536, dtype=np.uint16).view(np.float16).astype(np.float64)
+    for h in list(range(65536)) + list(range(-32768, 0)):
+        try:
+            got = value_of(fp16_to_float(h))
+        except Exception as e:
+            got = ('raised', type(e).__name__, None)
+        want = spec_half(h % 65536)
+        assert want == value_of(float(ref[h % 65536])), 'spec twin disagrees with numpy.float16 at %d' % h
+        if got != want:
+            cls = 'zero' if h & 0x7FFF == 0 else 'inf' if h & 0x7FFF == 0x7C00 else 'nan' if (h >> 10) & 31 == 31 else 'finite'
+            key = 'D11-fp16-int-return' if got[0] == 'not-a-float' and got[1] == 'int' and cls != 'finite' else 'fp16-wrong-value'
+            ctx.witness(key, 'fp16_to_float does not return the IEEE binary16 value as a float', {'float16': h}, got=str(got), want=str(want))
